@@ -351,7 +351,10 @@ class BPWorld(World):
             "flavour": fl,
             "config": config,
             "n": r.randrange(2, 8 if fl not in LAZY else 6),
-            "dims": r.choice([[2], [2, 3], [1, 2, 3], [3]]),
+            # lazy flavours contract whole site groups with all their incoming
+            # (possibly double-bond) messages: all-3 bonds there cost minutes in
+            # the path optimiser alone, so they mostly get smaller bonds
+            "dims": r.choice([[2], [2, 3], [1, 2, 3], [3]]) if fl not in LAZY else r.choice([[2], [1, 2], [2, 2, 2, 3], [2]]),
             "struct_seed": r.randrange(2**31),
             "data_seed": r.randrange(2**31),
             "data_kind": pick(r, kinds),
